@@ -38,6 +38,7 @@ func checkMultiset(c *core.Ctx, rule string, s msSite, ids map[string]int64) {
 	c.SawFunc(key)
 	var lit *ast.FuncLit
 	if s.callback {
+		fn = runSite(p, fn)
 		rcs := nodeRunCalls(p, fn)
 		if len(rcs) != 1 || rcs[0].Produce == nil {
 			c.Unknown(rule, key, fn.Decl.Pos(), "expected exactly one source.Run call with a literal produce callback")
